@@ -351,7 +351,7 @@ class RandomFunction(FunctionSamplingSet):  # pylint: disable=too-few-public-met
             fullsum = np.sum(np.sum(output, axis=2), axis=1)
 
             # Scale and translate to fit within center and amplitude
-            fullsum = fullsum * self.config["amplitude"] / self.config["num_terms"]
+            fullsum = fullsum * self.config["amplitude"] / (self.config["num_terms"] * input_dim)
             fullsum += self.config["center"]
 
             # Return the result
